@@ -187,7 +187,10 @@ class Case:
             self.prov.append(p)
         self.roots = tuple(self.cfg.get("roots", ROOTS))
         for side in (LOCAL, REMOTE):
-            self.prov[side].mkdirs(self.roots[side])
+            try:
+                self.prov[side].mkdirs(self.roots[side])
+            except Exception as e:
+                raise EngineCrash("creating the sync root %s through Provider.mkdirs raised %r" % (self.roots[side], e))
         self.storage = DictStorage(storage_data)
         self.cs = None
         self.build_engine()
